@@ -503,7 +503,7 @@ class _Gen:
             self.delays = DEC_DELAYS
 
     def asset(self):
-        return self.rng.randint(1, self.n_assets)
+        return self.rng.randint(0, self.n_assets)      # 0 is a legal asset id too
 
     def ev(self, depth):
         rng = self.rng
